@@ -3,7 +3,9 @@
 (* binary and of the batcher library against Inputs.  One record = one run:     *)
 (* the tree, stdin, arguments and flags the harness set up, and what was        *)
 (* observed (output rows, exit status, final message, reported read errors,     *)
-(* summary counters; for the library: every delivered line and ReadErrors()).   *)
+(* summary counters; for the library: every delivered line and ReadErrors();    *)
+(* for runs under a lowered descriptor limit also the largest number of         *)
+(* mentioned inputs that were open at the same time).                           *)
 (* TLC recomputes Expand / ReadOutcome / ExitCode from the logged scenario; a   *)
 (* record the specification cannot explain is collected in `bad` with the list  *)
 (* of disagreeing observables.  Inputs that may deliver a prefix (truncated     *)
@@ -16,7 +18,7 @@ VARIABLES l, bad, skipt
 tvars == <<l, bad, skipt>>
 
 ScOf(r) == [tree |-> r.tree, stdin |-> r.stdin, args |-> r.args, rec |-> r.rec, gz |-> r.gz,
-            readers |-> r.readers, cmd |-> r.cmd]
+            readers |-> r.readers, cmd |-> r.cmd, nofile |-> r.nofile]
 
 \* the set of truncated files that are mentioned: with at most one, a single cut explains the run
 PrefixPaths(sc) == LET ms == Mentions(sc) IN {ms[i].p : i \in PrefixIdx(sc, ms)}
@@ -32,10 +34,13 @@ CliDiff(sc, o, obs) ==
   (IF o.exit = obs.exit THEN {} ELSE {"exit"}) \cup
   (IF o.msg = obs.msg THEN {} ELSE {"msg"}) \cup
   (IF o.nerr = obs.nlog THEN {} ELSE {"nlog"}) \cup
-  (IF sc.cmd = "filter" /\ (o.matched # obs.matched \/ o.read # obs.read) THEN {"summary"} ELSE {})
-LibDiff(o, lib) ==
+  (IF sc.cmd = "filter" /\ (o.matched # obs.matched \/ o.read # obs.read) THEN {"summary"} ELSE {}) \cup
+  \* peak = the largest number of mentioned inputs seen open at the same time (-1: not sampled)
+  (IF obs.peak > MaxOpen(sc) THEN {"fds"} ELSE {})
+LibDiff(sc, o, lib) ==
   (IF o.tally = Tally(lib.rows) THEN {} ELSE {"lib-rows"}) \cup
-  (IF o.nerr = lib.nerr THEN {} ELSE {"lib-nerr"})
+  (IF o.nerr = lib.nerr THEN {} ELSE {"lib-nerr"}) \cup
+  (IF lib.peak > MaxOpen(sc) THEN {"lib-fds"} ELSE {})
 
 \* the smallest set of disagreements over the allowed cuts ({} = explained)
 Best(S) == IF {} \in S THEN {} ELSE CHOOSE d \in S : \A e \in S : Cardinality(d) <= Cardinality(e)
@@ -48,7 +53,7 @@ Why(r) ==
   \cup
   (IF ~r.lib.ran THEN {}
    ELSE IF r.lib.hang THEN {"lib-hang"}
-   ELSE LET ls == [sc EXCEPT !.cmd = "lib"] IN Best({LibDiff(OutcomeCut(ls, c), r.lib) : c \in Cuts(ls)}))
+   ELSE LET ls == [sc EXCEPT !.cmd = "lib"] IN Best({LibDiff(ls, OutcomeCut(ls, c), r.lib) : c \in Cuts(ls)}))
 
 TStep ==
   /\ l <= Len(Trace)
